@@ -409,6 +409,12 @@ func writeElementToken(encoder *xml.Encoder, elem xsel.Cursor) error {
 		},
 	}
 
+	// The encoder declares a default namespace on every element that has one.
+	// An element without a namespace inside such an element must undeclare it.
+	if parent, ok := elem.Parent().Node().(xsel.Element); ok && n.Space() == "" && parent.Space() != "" {
+		t.Attr = append(t.Attr, xml.Attr{Name: xml.Name{Local: "xmlns"}})
+	}
+
 	for _, i := range elem.Attributes() {
 		attr := i.Node().(xsel.Attribute)
 		attrTok := xml.Attr{
